@@ -120,6 +120,26 @@ func main() {
 	if *harness != "" {
 		copyTree(*harness, filepath.Join(*out, "v5", "zzverif"), func(p string) bool { return strings.HasSuffix(p, ".go") })
 	}
+
+	// pristine (uninstrumented) copies, from which the real command binaries are built
+	nonTest := func(p string) bool { return strings.HasSuffix(p, ".go") && !strings.HasSuffix(p, "_test.go") }
+	copyTree(v5, filepath.Join(*out, "pristine", "v5"), nonTest)
+	must(os.WriteFile(filepath.Join(*out, "pristine", "v5", "go.mod"), gomod, 0o644))
+	must(os.WriteFile(filepath.Join(*out, "pristine", "v5", "go.sum"), gosum, 0o644))
+	pl := filepath.Join(*out, "pristine", "legacy")
+	must(os.MkdirAll(pl, 0o755))
+	ents, err := os.ReadDir(*repo)
+	must(err)
+	for _, e := range ents {
+		if !e.IsDir() && nonTest(e.Name()) {
+			b, err := os.ReadFile(filepath.Join(*repo, e.Name()))
+			must(err)
+			must(os.WriteFile(filepath.Join(pl, e.Name()), b, 0o644))
+		}
+	}
+	copyTree(filepath.Join(*repo, "cmd"), filepath.Join(pl, "cmd"), nonTest)
+	must(os.WriteFile(filepath.Join(pl, "go.mod"), []byte("module github.com/evanphx/json-patch\n\ngo 1.18\n\n"+strings.Join(req, "\n")+"\n"), 0o644))
+	must(os.WriteFile(filepath.Join(pl, "go.sum"), gosum, 0o644))
 	must(os.WriteFile(filepath.Join(*out, "TREE_SHA256"), []byte(fmt.Sprintf("%x\n", treeHash.Sum(nil))), 0o644))
 }
 
